@@ -311,6 +311,21 @@ func c05(c *Ctx) {
 				}
 				r, w := cfgx.ReachesAvoidingBlocks(notF, cfgx.LoopHeader(loop), map[*ssa.BasicBlock]bool{ap.Block(): true}, nil, c.posf())
 				c.R.Check(!r, site(ap)+" always-on-!"+fld, c.pos(ap.Pos()), "every resource with "+fld+"==false is appended", "a resource with "+fld+"==false can be left out of the collection", w...)
+				// the test itself is made for every resource: no iteration reaches the
+				// next one without passing a test of cd.<fld>
+				tests := map[*ssa.BasicBlock]bool{}
+				for _, e := range notF {
+					tests[e.From] = true
+				}
+				hd := cfgx.LoopHeader(loop)
+				var entry []cfgx.Edge
+				for i, sc := range hd.Succs {
+					if loop[sc] {
+						entry = append(entry, cfgx.Edge{From: hd, Idx: i})
+					}
+				}
+				r2, w2 := cfgx.ReachesAvoidingBlocks(entry, hd, tests, nil, c.posf())
+				c.R.Check(!r2 && len(entry) > 0, site(ap)+" every-resource-tested-for-"+fld, c.pos(ap.Pos()), "every iteration tests cd."+fld, "an iteration can finish without testing cd."+fld+" (the test is nested under another condition): a resource that is not "+strings.ToLower(fld)+" is left out of the collection", w2...)
 				okx, _ := cfgx.OnlyHeaderExits(loop)
 				c.R.Check(okx, site(ap)+" no-early-exit", c.pos(ap.Pos()), "the collection loop has no early exit", "the collection loop can exit early")
 				// ranges over res.Composed of this reconcile's Compose
